@@ -43,10 +43,13 @@ structure Token where
   subjPropsEmpty : Bool
   nonTransferable : Option Bool
   statusView : Option StatusView
+  /-- SD-JWT only (C16): the disclosure decoder accepted the supplied disclosures against the signed claims; `claims`
+  then is the claims set with the disclosed values put back.  Always `true` for a plain JWT. -/
+  sdOk : Bool := true
 
 inductive VErr
   | nonce | kidMissing | kidParse | documentMismatch | methodLookup | signature | claimsJson
-  | claims (e : CErr) | signerUrl | identifierMismatch
+  | sdDecode | claims (e : CErr) | signerUrl | identifierMismatch
   | issuanceDate | expirationDate | structure | subjectHolder | status (v : VRes)
   deriving DecidableEq, Repr
 
@@ -83,6 +86,7 @@ def verifySignature (docs : List Doc) (tok : Token) (o : VOpts) : Except VErr Cr
     | .error e => .error e
     | .ok key =>
       if key ≠ tok.sigKey then .error .signature else
+      if !tok.sdOk then .error .sdDecode else
       match tok.claims with
       | none => .error .claimsJson
       | some cl =>
